@@ -76,14 +76,15 @@ type Entry struct {
 //	none
 //	changebyte  xor one byte of line Index with Xor; Region picks where in the line (any|tag|marker|sep|head), Pos the offset inside the region
 //	delete      remove line Index
-//	swap        exchange lines Index and To
-//	duplicate   insert a copy of line Index before line To (To = number of lines: append)
+//	swap        exchange lines Index and To (To < 0: the neighbour; ToSame: the line at the same offset in another chain)
+//	duplicate   insert a copy of line Index before line To (ToEnd: append; To < 0: right behind the original; ToSame: before the line at the same offset in another chain)
 //	truncate    keep only the first Index lines (tail truncation of the log)
 //	cuttail     remove line Index and everything after it up to the end of its chain (falls back to truncate in the final chain)
 //	wrongkey    leave the log alone, verify with Key
 //
 // Anchor, if set, re-bases Index on a chain: chain number Index (mod #chains), then
-// chainstart | chainsecond | chainend (last line of the chain) | chainpenult.
+// chainstart | chainsecond | chainend (last line of the chain) | chainpenult; "afterendtext" = the
+// Index-th line that follows a line containing the end-of-chain text.
 type Edit struct {
 	Op     string  `json:"op"`
 	Index  int     `json:"index,omitempty"`
@@ -93,6 +94,7 @@ type Edit struct {
 	Xor    int     `json:"xor,omitempty"`
 	To     int     `json:"to,omitempty"`
 	ToEnd  bool    `json:"toend,omitempty"`
+	ToSame bool    `json:"tosame,omitempty"` // swap/duplicate: partner = the line at the same offset inside chain number To (mod #chains, another chain if there is one)
 	Key    gen.Hex `json:"key,omitempty"`
 }
 
@@ -122,6 +124,7 @@ var hostileLits = []string{
 	"\n", "\r\n", "\r", "\t", `"`, `'`, "=", "|", `\`, `\\`, `\"`, `\n`, ` `, `  `,
 	" integrity=", "integrity=", " integrity=deadbeef", " integrity=0000000000000000000000000000000000000000000000000000000000000000",
 	" chain=new", "chain=new", "chain=end", " chain=end", endMsg, prepareMsg, "delimiter",
+	`msg="` + endMsg + `" chain=end`, endMsg + " chain=end",
 	`","integrity":"00`, `{"integrity":"00"}`, `\u0000`, "\x00", "\xff\xfe", "\xc3", "\xe2\x80\xa8", "é", "日本",
 	"{", "}", "CEF:0|", "%s", "%!d(", "<", "&",
 }
@@ -244,7 +247,7 @@ func genLog(t *rapid.T) Case {
 	return c
 }
 
-var tamperOps = []string{"changebyte", "changebyte", "changebyte", "delete", "delete", "swap", "duplicate", "duplicate", "truncate", "cuttail", "wrongkey"}
+var tamperOps = []string{"changebyte", "changebyte", "changebyte", "delete", "delete", "swap", "swap", "duplicate", "duplicate", "truncate", "cuttail", "wrongkey"}
 
 func genEdit(t *rapid.T, key []byte) Edit {
 	e := Edit{Op: rapid.SampledFrom(tamperOps).Draw(t, "op")}
@@ -266,7 +269,7 @@ func genEdit(t *rapid.T, key []byte) Edit {
 		return e
 	}
 	e.Index = rapid.IntRange(0, 1<<16).Draw(t, "index")
-	e.Anchor = rapid.SampledFrom([]string{"", "", "", "chainstart", "chainsecond", "chainend", "chainpenult"}).Draw(t, "anchor")
+	e.Anchor = rapid.SampledFrom([]string{"", "", "", "chainstart", "chainsecond", "chainend", "chainpenult", "afterendtext"}).Draw(t, "anchor")
 	switch e.Op {
 	case "changebyte":
 		e.Region = rapid.SampledFrom([]string{"any", "any", "any", "tag", "tag", "marker", "sep", "head"}).Draw(t, "region")
@@ -277,8 +280,11 @@ func genEdit(t *rapid.T, key []byte) Edit {
 		}
 	case "swap":
 		e.To = rapid.IntRange(0, 1<<16).Draw(t, "to")
-		if rapid.Bool().Draw(t, "adjacent") {
+		switch rapid.IntRange(0, 3).Draw(t, "swapto") {
+		case 0:
 			e.To = -1 // neighbour
+		case 1, 2:
+			e.ToSame = true
 		}
 	case "duplicate":
 		switch rapid.IntRange(0, 3).Draw(t, "dupto") {
@@ -286,6 +292,9 @@ func genEdit(t *rapid.T, key []byte) Edit {
 			e.ToEnd = true
 		case 1:
 			e.To = -1 // right after the original
+		case 2:
+			e.To = rapid.IntRange(0, 1<<16).Draw(t, "to")
+			e.ToSame = true
 		default:
 			e.To = rapid.IntRange(0, 1<<16).Draw(t, "to")
 		}
@@ -297,8 +306,8 @@ func genEdit(t *rapid.T, key []byte) Edit {
 // writer (real formatter + hooks + handler)
 
 type logMeta struct {
-	entryLine  []int // index of the first line of each entry
-	chainStart []int // indexes of the lines that start a chain
+	entryLine  []int        // index of the first line of each entry
+	chainStart []int        // indexes of the lines that start a chain
 	endLine    map[int]bool // lines that are end-of-chain entries for the writer (service entry of ResetChain/FinalizeChain, or a message equal to the end-of-chain text)
 }
 
@@ -445,28 +454,28 @@ func splitLines(buf []byte) []string {
 
 var scratchDir string
 
-// readBack runs the real file reader over buf.
-func readBack(buf []byte) (lines []string, numbers []int, err error) {
+// readBack runs the real file reader over buf. herr: the harness could not set the file up.
+func readBack(buf []byte) (lines []string, numbers []int, err error, herr error) {
 	if scratchDir == "" {
 		d, derr := os.MkdirTemp("", "c20-")
 		if derr != nil {
-			return nil, nil, derr
+			return nil, nil, nil, derr
 		}
 		scratchDir = d
 	}
 	path := filepath.Join(scratchDir, "audit.log")
-	if err := os.WriteFile(path, buf, 0o600); err != nil {
-		return nil, nil, err
+	if werr := os.WriteFile(path, buf, 0o600); werr != nil {
+		return nil, nil, nil, werr
 	}
 	src := logging.ReadLogEntries([]string{path}, false, false)
 	for e := range src.Entries {
 		if e == nil {
-			return lines, numbers, errors.New("nil entry from ReadLogEntries")
+			return lines, numbers, errors.New("nil entry from ReadLogEntries"), nil
 		}
 		lines = append(lines, e.RawLogEntry)
 		numbers = append(numbers, e.LineNumber)
 	}
-	return lines, numbers, src.Error
+	return lines, numbers, src.Error, nil
 }
 
 type verdict struct {
@@ -527,12 +536,7 @@ func jsonObj(line string) (map[string]interface{}, bool) {
 
 func protected(format, line string) bool {
 	if isJSON(format) {
-		m, ok := jsonObj(line)
-		if !ok {
-			return false
-		}
-		_, isStr := m["integrity"].(string)
-		return isStr
+		return strings.Contains(line, `"integrity"`)
 	}
 	return strings.Contains(line, tokIntegr)
 }
@@ -624,9 +628,22 @@ func chainOf(cs []chainSpan, line int) int {
 	return len(cs) - 1
 }
 
-func resolveIndex(e Edit, cs []chainSpan, n int) int {
+func resolveIndex(e Edit, cs []chainSpan, L []string) int {
+	n := len(L)
 	if n == 0 {
 		return 0
+	}
+	if e.Anchor == "afterendtext" { // the line behind a line that carries the end-of-chain text anywhere
+		var cand []int
+		for i := 1; i < n; i++ {
+			if strings.Contains(L[i-1], endMsg) {
+				cand = append(cand, i)
+			}
+		}
+		if len(cand) > 0 {
+			return cand[e.Index%len(cand)]
+		}
+		return e.Index % n
 	}
 	if e.Anchor == "" {
 		return e.Index % n
@@ -648,6 +665,23 @@ func resolveIndex(e Edit, cs []chainSpan, n int) int {
 		i = c.last
 	}
 	return i
+}
+
+// samePos resolves Edit.ToSame: the line at the same offset as idx inside another chain.
+func samePos(e Edit, cs []chainSpan, idx int) (int, bool) {
+	if !e.ToSame || e.To < 0 || len(cs) < 2 {
+		return 0, false
+	}
+	own := chainOf(cs, idx)
+	k := e.To % len(cs)
+	if k == own {
+		k = (k + 1) % len(cs)
+	}
+	j := cs[k].first + (idx - cs[own].first)
+	if j > cs[k].last {
+		j = cs[k].last
+	}
+	return j, true
 }
 
 func join(lines []string) []byte {
@@ -713,7 +747,7 @@ func apply(c Case, buf []byte, meta logMeta) (out []byte, removal bool, key []by
 	if e.Op == "none" || n == 0 {
 		return buf, false, key, nil
 	}
-	idx := resolveIndex(e, cs, n)
+	idx := resolveIndex(e, cs, L)
 	cp := func() []string { return append([]string(nil), L...) }
 	switch e.Op {
 	case "wrongkey":
@@ -757,7 +791,9 @@ func apply(c Case, buf []byte, meta logMeta) (out []byte, removal bool, key []by
 		return join(E), true, key, nil
 	case "swap":
 		j := 0
-		if e.To < 0 {
+		if sp, ok := samePos(e, cs, idx); ok {
+			j = sp
+		} else if e.To < 0 {
 			j = idx + 1
 			if j >= n {
 				j = idx - 1
@@ -776,7 +812,9 @@ func apply(c Case, buf []byte, meta logMeta) (out []byte, removal bool, key []by
 		return join(E), false, key, nil
 	case "duplicate":
 		to := idx + 1
-		if e.ToEnd {
+		if sp, ok := samePos(e, cs, idx); ok {
+			to = sp
+		} else if e.ToEnd {
 			to = n
 		} else if e.To >= 0 {
 			to = e.To % (n + 1)
@@ -952,7 +990,7 @@ func restartKinds(c Case) []string {
 type Result struct {
 	Lines        int
 	BaselineOK   bool
-	Effect       string // none | noop | prefix | changed | exempt-tail-junk | wrongkey | baseline-rejected
+	Effect       string // none | noop | prefix | same-entry-respelled | changed | chains-recombined | exempt-tail-junk | wrongkey | baseline-rejected
 	FirstChanged int
 	TagCaseOnly  bool
 }
@@ -965,8 +1003,8 @@ func excerpt(s string) string {
 }
 
 // Check writes the log of c, verifies it unedited, applies the edit and verifies again.
-// honestOnly: stop after the unedited verification. reportBaseline: a rejected honest log is a violation
-// of this test (TestHonest); otherwise it only ends the case (TestTamper leaves it to TestHonest).
+// reportBaseline: the reader is checked too and a rejected honest log is a violation (TestHonest);
+// otherwise a rejected honest log only ends the case (TestTamper leaves it to TestHonest).
 func Check(c Case, reportBaseline bool) (vs hx.Vs, res Result) {
 	res.FirstChanged = -1
 	var buf []byte
@@ -986,11 +1024,14 @@ func Check(c Case, reportBaseline bool) (vs hx.Vs, res Result) {
 	if reportBaseline {
 		var rl []string
 		var rn []int
-		var rerr error
-		if !hx.Guard(&vs, "ReadLogEntries", func() { rl, rn, rerr = readBack(buf) }) {
-			if rerr != nil && len(rl) == 0 && len(L) > 0 && strings.Contains(rerr.Error(), "c20-") {
-				vs.Add("harness:scratch", "%v", rerr)
-			} else if rerr == nil && !reflect.DeepEqual(rl, L) {
+		var rerr, herr error
+		if !hx.Guard(&vs, "ReadLogEntries", func() { rl, rn, rerr, herr = readBack(buf) }) {
+			switch {
+			case herr != nil:
+				vs.Add("harness:scratch", "%v", herr)
+			case rerr != nil:
+				vs.Add("reader-error:ReadLogEntries", "reading back an unedited log of %d lines (longest %d bytes): %v", len(L), longest(L), rerr)
+			case !reflect.DeepEqual(rl, L):
 				at := 0
 				for at < len(rl) && at < len(L) && rl[at] == L[at] {
 					at++
@@ -1000,7 +1041,7 @@ func Check(c Case, reportBaseline bool) (vs hx.Vs, res Result) {
 					shape = "line-over-64k"
 				}
 				vs.Add("reader-drops-lines:ReadLogEntries:"+shape, "the log has %d lines, ReadLogEntries delivered %d and no error (Error=nil); first missing/different line %d has %d bytes — everything from there on is never verified", len(L), len(rl), at, lineLen(L, at))
-			} else if rerr == nil {
+			default:
 				for i, nmb := range rn {
 					if nmb != i {
 						vs.Add("reader-line-number:ReadLogEntries", "line %d delivered with LineNumber %d", i, nmb)
@@ -1101,7 +1142,11 @@ func Check(c Case, reportBaseline bool) (vs hx.Vs, res Result) {
 		if len(E) == len(L) {
 			res.Effect = "noop"
 		}
-		if !got.ok {
+		if res.TagCaseOnly {
+			// some line is a different spelling of the same entry (tag letter case, trailing white space,
+			// JSON re-encoding): accepting and rejecting it are both fine
+			res.Effect = "same-entry-respelled"
+		} else if !got.ok {
 			vs.Add("prefix-rejected:"+c.Format, "the first %d of %d lines of a log that verifies do not verify: %s", len(E), len(L), got)
 		}
 		return vs, res
@@ -1128,10 +1173,10 @@ func Check(c Case, reportBaseline bool) (vs hx.Vs, res Result) {
 	}
 	if got.ok && recombined(c.Format, L, E, chains(meta, len(L)), meta.endLine) {
 		res.Effect = "chains-recombined"
-		vs.Add("tamper-accepted:chains-recombined", "edit %s (first changed line %d of %d, now %s) leaves a sequence of intact chains / chain prefixes of the original log, each but the last one properly ended, and the log still verifies: nothing binds a chain to its predecessor, so whole chains can be dropped (here also by a one-byte edit that turns them into an unprotected line) and a chain prefix can be replayed after an ended chain",
+		vs.Add("tamper-accepted:chains-recombined", "edit %s (first changed line %d of %d, now %s) leaves a sequence of intact chains / chain prefixes of the original log, each but the last one properly ended, and the log still verifies: nothing binds a chain to its predecessor, so entries between an end-of-chain entry and a later chain start can be dropped and a chain prefix can be replayed after an ended chain",
 			op, p, len(L), excerpt(E[p]))
 	} else if got.ok {
-		vs.Add("tamper-accepted:"+c.Format+":"+shape,"edit %s (first changed line %d of %d, now %s; was %s) and the log still verifies; it must fail no later than at line %d",
+		vs.Add("tamper-accepted:"+c.Format+":"+shape, "edit %s (first changed line %d of %d, now %s; was %s) and the log still verifies; it must fail no later than at line %d",
 			op, p, len(L), excerpt(E[p]), excerpt(lineAt(L, p)), bound)
 	} else if got.line > bound {
 		vs.Add("tamper-late:"+c.Format+":"+shape, "edit %s first changes line %d, the next protected entry is line %d, but verification %s", op, p, bound, got)
@@ -1182,6 +1227,16 @@ func lineAt(L []string, i int) string {
 
 func lineLen(L []string, i int) int { return len(lineAt(L, i)) }
 
+func longest(L []string) int {
+	m := 0
+	for _, l := range L {
+		if len(l) > m {
+			m = len(l)
+		}
+	}
+	return m
+}
+
 func nontrivial(c Case, res Result) bool {
 	if len(c.Entries) < 3 || !res.BaselineOK {
 		return false
@@ -1202,11 +1257,14 @@ func classes(c Case, res Result) []string {
 	if c.Edit.Anchor != "" && op != "none" && op != "wrongkey" {
 		cl = append(cl, "anchor:"+c.Edit.Anchor)
 	}
+	if c.Edit.ToSame && (op == "swap" || op == "duplicate") {
+		cl = append(cl, "partner:same-offset-in-another-chain/"+op)
+	}
 	if res.Effect != "" {
 		cl = append(cl, "effect:"+res.Effect, "effect:"+c.Format+"/"+op+"/"+res.Effect)
 	}
 	if res.TagCaseOnly {
-		cl = append(cl, "effect:tag-letter-case-only(same entry)")
+		cl = append(cl, "effect:some-line-respelled(same entry)")
 	}
 	fs := map[string]bool{}
 	for _, e := range c.Entries {
@@ -1270,6 +1328,98 @@ func TestTamper(t *testing.T) {
 	})
 }
 
+// ---------------------------------------------------------------------------------------------
+// golden logs: written once by the pinned tree (C20_WRITE_GOLDEN=1 go test -run TestGolden), they must
+// keep verifying — a change applied consistently to writer and verifier (tag input, key schedule)
+// is invisible to the round-trip tests but makes every existing log unverifiable.
+
+type goldenCase struct {
+	Format string `json:"format"`
+	Drop   int    `json:"drop"` // -1: the log as stored; i >= 0: line i removed
+}
+
+var goldenKey = []byte("golden-audit-log-key-0123456789a")
+
+func goldenLog(format string) Case {
+	s := func(x string) gen.Hex { return gen.Hex(x) }
+	return Case{Format: format, Key: goldenKey, Finalize: true, Edit: Edit{Op: "none"}, Entries: []Entry{
+		{Msg: s("Starting service acra-server [pid=4242]"), Level: "info", Fields: []Field{{Name: s("version"), Value: s("0.96.0")}}},
+		{Msg: s("query \"select 1\"\n-- second line | a=b \\ end"), Level: "debug", Fields: []Field{{Name: s("client_id"), Value: s("client \"one\"=|\\\n")}, {Name: s("port"), Value: s("9393"), Kind: "int"}}},
+		{Msg: s(""), Level: "warning", Fields: []Field{{Name: s("msg"), Value: s("shadowed")}, {Name: s("time"), Value: s("never")}, {Name: s("unixTime"), Value: s("0"), Kind: "int"}}},
+		{Msg: s("bytes \xff\xfe\x00 and chain=new inside"), Level: "error", Fields: []Field{{Name: s("error"), Value: s("boom: chain=new"), Kind: "err"}, {Name: s("ratio"), Value: s("1.5"), Kind: "float"}}},
+		{Msg: s("after reset"), Level: "info", Restart: "reset"},
+		{Msg: s("second entry after reset"), Level: "info", Fields: []Field{{Name: s("ok"), Value: s("true"), Kind: "bool"}}},
+		{Msg: s("after restart"), Level: "info", Restart: "restart"},
+		{Msg: s("last one"), Level: "fatal"},
+	}}
+}
+
+func goldenPath(format string) string { return filepath.Join("testdata", "golden-"+format+".log") }
+
+func checkGolden(g goldenCase) (vs hx.Vs) {
+	buf, err := os.ReadFile(goldenPath(g.Format))
+	if err != nil {
+		vs.Add("harness:golden", "%v", err)
+		return vs
+	}
+	L := splitLines(buf)
+	if g.Drop < 0 {
+		var rl []string
+		var rerr, herr error
+		if hx.Guard(&vs, "ReadLogEntries", func() { rl, _, rerr, herr = readBack(buf) }) {
+			return vs
+		}
+		if herr != nil {
+			vs.Add("harness:scratch", "%v", herr)
+			return vs
+		}
+		if rerr != nil || !reflect.DeepEqual(rl, L) {
+			vs.Add("reader-drops-lines:ReadLogEntries:golden", "ReadLogEntries delivered %d of %d lines, error %v", len(rl), len(L), rerr)
+		}
+		if got, ran := verify(&vs, g.Format, goldenKey, L); ran && !got.ok {
+			vs.Add("golden-rejected:"+g.Format, "a %s log written by the pinned revision (%s) no longer verifies: %s; blamed line %s", g.Format, goldenPath(g.Format), got, excerpt(lineAt(L, got.line)))
+		}
+		return vs
+	}
+	if g.Drop >= len(L)-1 {
+		return vs
+	}
+	E := append(append([]string(nil), L[:g.Drop]...), L[g.Drop+1:]...)
+	if got, ran := verify(&vs, g.Format, goldenKey, E); ran && (got.ok || got.line > g.Drop) {
+		vs.Add("tamper-accepted:"+g.Format+":golden-delete", "golden %s log with line %d of %d removed: %s", g.Format, g.Drop, len(L), got)
+	}
+	return vs
+}
+
+func TestGolden(t *testing.T) {
+	if os.Getenv("C20_WRITE_GOLDEN") != "" {
+		os.MkdirAll("testdata", 0o755)
+		for _, f := range formats {
+			buf, _, err := writeLog(goldenLog(f))
+			if err != nil {
+				t.Fatal(err)
+			}
+			if err := os.WriteFile(goldenPath(f), buf, 0o644); err != nil {
+				t.Fatal(err)
+			}
+		}
+	}
+	if hx.Shard() != 0 {
+		t.Skip("golden logs are checked in shard 0")
+	}
+	R.Rule("TestGolden", "one stored log per format (hostile but verifiable content, ResetChain, restart, finalize) written by the pinned revision: must be read completely and verify; with any single line but the last removed it must fail no later than at the line that took its place")
+	for _, f := range formats {
+		buf, _ := os.ReadFile(goldenPath(f))
+		n := len(splitLines(buf))
+		for drop := -1; drop < n-1; drop++ {
+			g := goldenCase{Format: f, Drop: drop}
+			vs := checkGolden(g)
+			R.Seen("TestGolden", g, drop >= 0, "format:"+f)
+			R.Report(t, "TestGolden", g, vs)
+		}
+	}
+}
+
 func replayCase(report bool) hx.ReplayHandler {
 	return func(raw json.RawMessage) hx.Vs {
 		var c Case
@@ -1286,12 +1436,21 @@ func TestReplay(t *testing.T) {
 		"TestHonest":        replayCase(true),
 		"TestTamper":        replayCase(false),
 		"FuzzHonestContent": replayCase(true),
+		"TestGolden": func(raw json.RawMessage) hx.Vs {
+			var g goldenCase
+			if err := json.Unmarshal(raw, &g); err != nil {
+				return hx.Vs{{Sig: "harness:decode", Msg: err.Error()}}
+			}
+			return checkGolden(g)
+		},
 	})
 }
 
 // fuzzCase embeds fuzzed content between plain entries, with a chain restart behind it.
 func fuzzCase(format string, msg, name, value []byte) Case {
-	plain := func(i int) Entry { return Entry{Msg: gen.Hex(fmt.Sprintf("Plain message number %d", i)), Level: "info"} }
+	plain := func(i int) Entry {
+		return Entry{Msg: gen.Hex(fmt.Sprintf("Plain message number %d", i)), Level: "info"}
+	}
 	after := plain(2)
 	after.Restart = "reset"
 	return Case{Format: format, Key: gen.Hex("0123456789abcdef0123456789abcdef"), Finalize: true, Edit: Edit{Op: "none"},
